@@ -4,6 +4,9 @@
 #include <unordered_map>
 #include <cassert>
 #include <cstddef>
+#ifdef DSPLIB_VERIF
+#include <vector>
+#endif
 
 namespace dsplib {
 
@@ -51,6 +54,17 @@ public:
     [[nodiscard]] int size() const {
         return items_map_.size();
     }
+
+#ifdef DSPLIB_VERIF
+    //verification hook (read-only): keys from the most to the least recently used
+    std::vector<Key> verif_keys() const {
+        std::vector<Key> r;
+        for (const auto& kv : items_list_) {
+            r.push_back(kv.first);
+        }
+        return r;
+    }
+#endif
 
 private:
     std::list<KeyValue_t> items_list_;
